@@ -9,6 +9,7 @@ import (
 	"strings"
 	"sync/atomic"
 	"syscall"
+	"unsafe"
 
 	"os/signal"
 
@@ -68,7 +69,23 @@ func c03FileWalk(cfg *world.Config, dir string, root *mast.Root) error {
 func C03FileChild(args []string) int {
 	dir, format := args[0], args[1]
 	limit, _ := strconv.Atoi(args[2])
-	signal.Ignore(syscall.SIGXFSZ)
+	kill := len(args) > 3 && args[3] == "kill"
+	if kill {
+		// the kernel's default disposition of SIGXFSZ (terminate): the process dies at the byte where a write is
+		// cut - a crash in the middle of MakeRoot (see C17Child)
+		type sigaction struct {
+			handler  uintptr
+			flags    uint64
+			restorer uintptr
+			mask     uint64
+		}
+		sa := sigaction{}
+		if _, _, e := syscall.RawSyscall6(syscall.SYS_RT_SIGACTION, uintptr(syscall.SIGXFSZ), uintptr(unsafe.Pointer(&sa)), 0, 8, 0, 0); e != 0 {
+			return 3
+		}
+	} else {
+		signal.Ignore(syscall.SIGXFSZ)
+	}
 	t, cfg, err := c03FileTree(dir, format)
 	if err != nil {
 		return 3
@@ -132,6 +149,7 @@ func c03FileBackend(run *report.Run, acc *pairAcc) {
 	type job struct {
 		format string
 		limit  int
+		kill   bool
 	}
 	var jobs []job
 	maxNode := map[string]int{}
@@ -154,10 +172,10 @@ func c03FileBackend(run *report.Run, acc *pairAcc) {
 			}
 		}
 		for n := 0; n <= maxNode[f]+1; n++ {
-			jobs = append(jobs, job{f, n})
+			jobs = append(jobs, job{f, n, false}, job{f, n, true})
 		}
 	}
-	var runs, failedReported, succeeded int64
+	var runs, failedReported, succeeded, crashed int64
 	cfg := &world.Config{Name: "persist/file under MakeRoot"}
 	parallelFor(len(jobs), func(i int) {
 		j := jobs[i]
@@ -166,6 +184,25 @@ func c03FileBackend(run *report.Run, acc *pairAcc) {
 			return
 		}
 		defer os.RemoveAll(dir)
+		if j.kill {
+			// the process dies in the middle of MakeRoot; a new process builds the same version over the same
+			// directory and persists it: that attempt succeeds only with every node complete
+			err := exec.Command(self, "c03-file-child", dir, j.format, strconv.Itoa(j.limit), "kill").Run()
+			atomic.AddInt64(&runs, 1)
+			if ee, ok := err.(*exec.ExitError); ok && ee.ExitCode() < 0 {
+				atomic.AddInt64(&crashed, 1)
+			}
+			out, err := exec.Command(self, "c03-file-child", dir, j.format, "-1").CombinedOutput()
+			code := 0
+			if ee, ok := err.(*exec.ExitError); ok {
+				code = ee.ExitCode()
+			}
+			if code != 0 && code != 3 {
+				acc.add(cfg, "C03", []explore.Finding{{Sig: fmt.Sprintf("C03|file-backend|after-a-crash-in-MakeRoot|exit-%d", code), What: "after a process died in the middle of MakeRoot onto the file store, a new process persisting the same version reports success on an incomplete version, or fails", Detail: strings.TrimSpace(string(out))}},
+					[]string{fmt.Sprintf("9 entries, branch factor 2, %s; MakeRoot onto persist/file in a process that is killed (SIGXFSZ) when a file reaches %d bytes; then a new process: same entries, MakeRoot, walk", shortFmtName(j.format), j.limit)})
+			}
+			return
+		}
 		out, err := exec.Command(self, "c03-file-child", dir, j.format, strconv.Itoa(j.limit)).CombinedOutput()
 		atomic.AddInt64(&runs, 1)
 		code := 0
@@ -199,7 +236,7 @@ func c03FileBackend(run *report.Run, acc *pairAcc) {
 		run.HarnessError("file-size limit did not take effect in part E (no MakeRoot failed): RLIMIT_FSIZE not enforced here?")
 	}
 	run.Parts = append(run.Parts, map[string]interface{}{"part": "E (engine X): MakeRoot onto the real persist/file store with RLIMIT_FSIZE = N for every N from 0 to one past the largest node, both formats; then the limit is lifted and MakeRoot retried",
-		"child_processes": runs, "makeroot_reported_the_failure": failedReported, "makeroot_succeeded": succeeded, "largest_node_bytes": maxNode})
+		"child_processes": runs, "children_killed_in_the_middle_of_makeroot_then_a_new_process_persists_the_version": crashed, "makeroot_reported_the_failure": failedReported, "makeroot_succeeded": succeeded, "largest_node_bytes": maxNode})
 }
 
 var _ = explore.Finding{}
